@@ -545,6 +545,14 @@ func (x *EvalCtx) evalCall(e *Expr) TV {
 			efail("exists() needs `ghost fsExists pathset`")
 		}
 		return TV{Select(c.get(x.st, cell), a.T, SBool), tyBool}
+	case "fileData":
+		// the bytes of the named file (uninterpreted; the file system is not modelled beyond presence)
+		a := x.eval(e.Args[0])
+		c.declareFun("fileData", []Sort{SInt}, SInt)
+		return TV{Term{app("fileData", a.T), SInt}, tyString}
+	case "sha256hex":
+		a := x.eval(e.Args[0])
+		return TV{c.sha256Hex(a.T), tyString}
 	case "pathJoin":
 		// filepath.Join(a, b) as the same uninterpreted function the code uses
 		a := x.eval(e.Args[0])
